@@ -375,6 +375,15 @@ impl World {
     let mut guard = 0;
     loop {
       self.quiesce(policy, rng);
+      // externally woken scripted futures/streams get their wake-ups
+      let parked = crate::scripts::parked();
+      if !parked.is_empty() && guard < 10_000 {
+        for id in parked {
+          crate::scripts::wake(id);
+        }
+        guard += 1;
+        continue;
+      }
       match vtime::next_due() {
         Some(d) if d <= horizon && guard < 10_000 => {
           self.fire_next_timer(rng);
